@@ -680,40 +680,69 @@ func c05DeferKeepsError(fn *ssa.Function) string {
 			}
 		}
 	}
-	for a := range cells {
-		for _, cl := range closureWriters(a) {
-			for i, fv := range cl.FreeVars {
-				if len(freeVarBindings(fv)) == 0 || freeVarBindings(fv)[0] != ssa.Value(a) {
-					continue
+	// checkHandle: `h` is a pointer to the error result inside function g (a
+	// captured free variable or a *error parameter).
+	var checkHandle func(g *ssa.Function, h ssa.Value, depth int) string
+	checkHandle = func(g *ssa.Function, h ssa.Value, depth int) string {
+		if depth > 3 {
+			return FnName(g) + ": the error result is passed on too deeply"
+		}
+		loads := map[ssa.Value]bool{}
+		var stores []*ssa.Store
+		for _, r := range *h.Referrers() {
+			switch u := r.(type) {
+			case *ssa.UnOp:
+				loads[u] = true
+			case *ssa.Store:
+				if u.Addr == h {
+					stores = append(stores, u)
+				} else {
+					return FnName(g) + " stores the address of the error result"
 				}
-				_ = i
-				loads := map[ssa.Value]bool{}
-				var stores []*ssa.Store
-				for _, r := range *fv.Referrers() {
-					switch u := r.(type) {
-					case *ssa.UnOp:
-						loads[u] = true
-					case *ssa.Store:
-						if u.Addr == ssa.Value(fv) {
-							stores = append(stores, u)
+			case *ssa.DebugRef:
+			case *ssa.MakeClosure:
+				f := u.Fn.(*ssa.Function)
+				for i, bnd := range u.Bindings {
+					if bnd == h {
+						if why := checkHandle(f, f.FreeVars[i], depth+1); why != "" {
+							return why
 						}
-					default:
-						if _, isDbg := r.(*ssa.DebugRef); !isDbg {
-							return fmt.Sprintf("%s passes the error result cell on (%T)", FnName(cl), r)
+					}
+				}
+			case ssa.CallInstruction:
+				callee := StaticCallee(u)
+				if callee == nil || !inModule(callee) || len(callee.Blocks) == 0 {
+					return fmt.Sprintf("%s hands the address of the error result to %s: cannot show the error is preserved", FnName(g), CalleeName(u))
+				}
+				for i, a := range u.Common().Args {
+					if a == h && i < len(callee.Params) {
+						if why := checkHandle(callee, callee.Params[i], depth+1); why != "" {
+							return why
 						}
 					}
 				}
-				nilE, _, _ := NilTests(cl, loads)
-				for _, s := range stores {
-					if ErrNilStatus(s.Val, 0) == NonNil {
-						continue
-					}
-					if len(nilE) > 0 && MustPass(s, newCut().Edges(nilE...)) {
-						continue
-					}
-					return fmt.Sprintf("%s overwrites the error result with a possibly-nil value while it may be non-nil", FnName(cl))
-				}
+			default:
+				return fmt.Sprintf("%s passes the error result cell on (%T)", FnName(g), r)
 			}
+		}
+		if g == fn {
+			return "" // stores in the function itself are return-value assignments, covered by the return atoms
+		}
+		nilE, _, _ := NilTests(g, loads)
+		for _, s := range stores {
+			if ErrNilStatus(s.Val, 0) == NonNil {
+				continue
+			}
+			if len(nilE) > 0 && MustPass(s, newCut().Edges(nilE...)) {
+				continue
+			}
+			return fmt.Sprintf("%s overwrites the error result with a possibly-nil value while it may be non-nil (a failed verification is reported as success)", FnName(g))
+		}
+		return ""
+	}
+	for a := range cells {
+		if why := checkHandle(fn, a, 0); why != "" {
+			return why
 		}
 	}
 	return ""
